@@ -39,6 +39,8 @@ type c16Stream struct {
 	// SameAs names a stream carrying the same commands in another framing whose
 	// replies this stream must reproduce byte for byte (one reply per command)
 	SameAs string
+	// Sparse: megabytes per execution - cuts only near the end, near the start and at read-buffer multiples
+	Sparse bool
 }
 
 func c16Streams(tier string) []c16Stream {
@@ -78,6 +80,8 @@ func c16Streams(tier string) []c16Stream {
 		// a command that turns the connection into a stream, followed by further commands
 		{Name: "subscribe-then-commands", Data: append(append(append(respCmd("SUBSCRIBE", "c16a"), respCmd("PING", "hello")...), respCmd("SUBSCRIBE", "c16b")...), respCmd("PING")...), HTTP: false},
 		{Name: "psubscribe-then-telnet", Data: []byte("PSUBSCRIBE c16*\r\nPING hello\r\nUNSUBSCRIBE nope\r\n"), HTTP: false},
+		// a command larger than a megabyte followed by pipelined commands (whatever the reader keeps between reads must survive)
+		{Name: "value-1.3M-then-pipeline", Sparse: true, Data: append(append(append(respCmd("SET", "pk", "huge", "STRING", strings.Repeat("0123456789abcdef", 82000)), respCmd("PING", "after")...), respCmd("GET", "pk", "a")...), respCmd("PING")...)},
 		// valid commands followed by malformed input once the connection is a subscription / a monitor
 		{Name: "subscribed-ping-then-malformed", Data: append(append(respCmd("SUBSCRIBE", "c16a"), respCmd("PING", "x")...), []byte("*x\r\n")...)},
 		{Name: "monitor-then-quit", Data: []byte("MONITOR\r\nQUIT\r\n")},
@@ -130,7 +134,7 @@ func c16Send(x *Exec, addr string, data []byte, cuts []int) string {
 }
 
 func checkC16Cuts(job *Job, res *Result) {
-	res.Rule = "SEQ over inputs x cuts: 31 streams (LF-terminated telnet streams must be answered like their CRLF twins, a 5 KB inline command like its RESP twin, a 5 KB URL like a short one) (incl. valid-then-malformed and stream-switching commands followed by further commands) x every 2-way cut (long streams: every cut within 80 bytes of a command / read-buffer boundary plus a stride), every 3-way cut for streams <= 120 bytes (thorough <= 200), byte-at-a-time for streams <= 400 bytes; distinct = distinct (stream, segmentation class)"
+	res.Rule = "SEQ over inputs x cuts: 32 streams (LF-terminated telnet streams must be answered like their CRLF twins, a 5 KB inline command like its RESP twin, a 5 KB URL like a short one) (incl. valid-then-malformed and stream-switching commands followed by further commands) x every 2-way cut (long streams: every cut within 80 bytes of a command / read-buffer boundary plus a stride), every 3-way cut for streams <= 120 bytes (thorough <= 200), byte-at-a-time for streams <= 400 bytes; distinct = distinct (stream, segmentation class)"
 	res.Assumptions = append(res.Assumptions, "each stream is replayed on a fresh connection of one server; its commands are idempotent so the state is the same for every replay", "the elapsed member of JSON replies is blanked")
 	streams := c16Streams(job.Tier)
 	caseNo := 0
@@ -167,7 +171,19 @@ func checkC16Cuts(job *Job, res *Result) {
 				res.Extra["reference_replies"] = map[string]any{s.Name: vclip(ref, 160)}
 			}
 			var plans [][]int
-			if n <= 3000 {
+			if s.Sparse {
+				for d := 1; d <= 90; d++ {
+					plans = append(plans, []int{n - d})
+				}
+				for d := 1; d <= 40; d += 3 {
+					plans = append(plans, []int{d})
+				}
+				for k := 1; k*0xFFFF < n; k += 3 {
+					plans = append(plans, []int{k * 0xFFFF}, []int{k*0xFFFF - 1})
+				}
+				plans = append(plans, []int{n - 60, n - 30}, []int{n / 2, n - 45})
+				res.Cap("stream " + s.Name + ": cuts only near both ends and at read-buffer multiples")
+			} else if n <= 3000 {
 				for i := 1; i < n; i++ {
 					plans = append(plans, []int{i})
 				}
